@@ -68,6 +68,11 @@ func c18Name(e error) string {
 			return "u" + strconv.Itoa(i)
 		}
 	}
+	for i, x := range c18Exotic {
+		if e == x {
+			return "x" + strconv.Itoa(i)
+		}
+	}
 	return "other"
 }
 
@@ -166,11 +171,28 @@ func c18Expand(toks []string) []string {
 	return out
 }
 
+// failure VALUES an operation may well return and that mean something to the retry package itself:
+// the errors of (other) contexts, bare and wrapped, the package's own sentinels, and the *FError of
+// an inner retry. Whether the operation is re-run is decided by the bool it returns, never by these.
+var c18Exotic = []error{
+	context.Canceled,
+	context.DeadlineExceeded,
+	fmt.Errorf("dial tcp: %w", context.DeadlineExceeded),
+	fmt.Errorf("request: %w", context.Canceled),
+	ErrRetriesExceeded,
+	ErrWaitExceedsDeadline,
+	&FError{MainErr: ErrRetriesExceeded, Attempts: 2},
+	&FError{MainErr: context.Canceled, Attempts: 1},
+}
+
 func c18Outcome(tok string) (bool, error) {
 	if tok == "o" {
 		return true, nil
 	}
 	id, _ := strconv.Atoi(tok[1:])
+	if tok[0] == 'R' || tok[0] == 'F' {
+		return tok[0] == 'R', c18Exotic[id%len(c18Exotic)]
+	}
 	return tok[0] == 'r', c18User[id%len(c18User)]
 }
 
